@@ -5,6 +5,7 @@ package main
 //   //@ func Name | (*T).Name | (T).Name | pkg/path.Name | pkg/path.(*T).Name
 //   //@ props C07 C01
 //   //@ requires[label] expr          //@ ensures[label] expr
+//   //@ records expr (definitional ghost call record)   //@ assumes[label] expr (unchecked postcondition, reported)
 //   //@ assigns loc, loc | nothing | everything
 //   //@ pure | trusted | inline | nosafety | check nil | may_panic
 //   //@ loop N invariant[label] expr  //@ loop N decreases expr  //@ loop N unroll K
@@ -28,6 +29,7 @@ import (
 )
 
 type Clause struct {
+	Assumed bool // "assumes": unchecked postcondition (reported as an assumption where it is used)
 	Label string
 	Text  string
 	Expr  ast.Expr
@@ -375,7 +377,7 @@ func (cs *ContractSet) ParseContractFile(path, pkgPath string) error {
 			} else {
 				errf(l, "props outside of func/lemma")
 			}
-		case "requires", "ensures", "assert", "records", "yields":
+		case "requires", "ensures", "assert", "records", "yields", "assumes":
 			if curLemma != nil && kw == "requires" {
 				if c := mkClause(l, rest); c != nil {
 					curLemma.Hyps = append(curLemma.Hyps, c)
@@ -396,6 +398,10 @@ func (cs *ContractSet) ParseContractFile(path, pkgPath string) error {
 			case "ensures":
 				cur.Ensures = append(cur.Ensures, c)
 			case "records":
+				cur.Records = append(cur.Records, c)
+			case "assumes":
+				// a postcondition taken on trust: assumed at call sites, not checked in the body, reported
+				c.Assumed = true
 				cur.Records = append(cur.Records, c)
 			case "yields":
 				cur.Yields = append(cur.Yields, c)
